@@ -84,7 +84,14 @@ def apply(F):
     F.wrap([], r'impl<A: Aead> Default for AeadTag<A>')
     S = [r'impl<A: Aead> Serializable for AeadTag<A>']
     F.insert_in([], S[0], '    closed spec fn ser(&self) -> Bytes { self.0.gv() }')
-    F.contract(S, r'fn write_exact\b', attrs=['#[verifier::external_body]'], discharged_by='kani:write_exact_tag')
+    # N7: write_exact calls enforce_outbuf_len::<Self> inside `impl Serializable for Self` (trait-cycle check)
+    F.hoist(S, r'fn write_exact\b', 'write_exact_tag_body', 'AeadTag<A>', trait='Serializable', generics='A: Aead')
+    F.contract(S, r'fn write_exact\b', attrs=['#[verifier::external_body]'], discharged_by='N7 delegation to the verified write_exact_tag_body (cross-checked by kani:write_exact_tag)')
+    F.contract([], r'fn write_exact_tag_body<A: Aead>', clauses='''
+    requires old(buf)@.len() == nt_of::<A::AeadImpl>(),
+    ensures /*@C12*/ final(buf)@ == this.ser(),
+''')
+    F.wrap([], r'fn write_exact_tag_body<A: Aead>')
     F.wrap([], S[0])
     D = [r'impl<A: Aead> Deserializable for AeadTag<A>']
     F.insert_in([], D[0], '    open spec fn de_valid(b: Bytes) -> bool { true }')
